@@ -83,11 +83,23 @@ def c17_2(ctx):
     cc = [s for s in fn.body if isinstance(s, ast.Assign) and U(s.targets[0]) == 'df' and N(s.value) == 'pd.concat(bis)']
     if not cc:
         ctx.fail(fn, fn.node, 'the merged frame is not pd.concat(bis)')
+    # between the concatenation and the per-date cleanup no row may be dropped: the same-stamp winner must be chosen AFTER the forward fill
+    # of _drop_repeats, otherwise a NaN in the version merged last wipes the value an earlier same-stamp version had
+    ctx.count(1)
+    pm0 = parent_map(fn.node)
+    for c in calls_in(fn.node):
+        if call_name(c) in ('duplicated', 'drop_duplicates', 'dropna', 'last', 'first', 'nth', 'tail', 'head'):
+            ctx.fail(fn, enclosing_stmt(pm0, c), 'bi_merge drops rows with %s(...) before the per-date cleanup: of two versions sharing a stamp the later one then wins BEFORE NaNs are forward-filled, so its NaN overrides the earlier value' % call_name(c),
+                     witness='two versions with one stamp, the second with NaN on a date the first had a value for')
     ctx.count(1)
     res = [s for s in fn.body if isinstance(s, ast.Assign) and U(s.targets[0]) == 'res']
     if not res or N(res[0].value) != 'pd.concat([_drop_repeats(d) for _, d in gb])':
         ctx.fail(fn, res[0] if res else fn.node, 'per-date cleanup is not _drop_repeats on every observation date')
     gb = [s for s in fn.body if isinstance(s, ast.Assign) and U(s.targets[0]) == 'gb']
+    dfb = [s for s in fn.body if isinstance(s, ast.Assign) and U(s.targets[0]) == 'df']
+    for extra in dfb[1:]:
+        if isinstance(extra.value, ast.Subscript):
+            ctx.fail(fn, extra, 'the merged frame is filtered (`%s`) before the per-date cleanup' % U(extra)[:90])
     if not gb or '.groupby(df.index.name)' not in U(gb[0].value):
         ctx.fail(fn, gb[0] if gb else fn.node, 'versions are not grouped by observation date')
 
@@ -181,6 +193,15 @@ def c17_5(ctx):
     caps = [s for s in ast.walk(fn.node) if isinstance(s, ast.Assign) and isinstance(s.targets[0], ast.Subscript) and '.loc' in U(s.targets[0]) and U(s.value) == 'now']
     if len(caps) < 2:
         ctx.fail(fn, fn.node, 'bumped stamps in the future are no longer capped at now')
+    # an explicit stamp is kept as given: the "not later than now" cap belongs to the bump branches only
+    ctx.count(1)
+    for p in paths(fn.body):
+        stamped = [s for s in p.stmts if isinstance(s, ast.Assign) and N(s.targets[0]) == '%s[_updated]' % df and N(s.value) == 'dt(%s)' % asof]
+        capped = [s for s in p.stmts if isinstance(s, ast.Assign) and isinstance(s.targets[0], ast.Subscript) and '.loc' in U(s.targets[0]) and '_updated' in U(s.targets[0])]
+        if stamped and capped:
+            ctx.fail(fn, capped[0], 'an explicit publication stamp is clipped to "now" (`%s` also runs after df[stamp] = dt(asof)): a version stamped in the future is stored as published now and leaks into every read with T >= now' % U(capped[0])[:70],
+                     witness='Bi(v, dt(2999,1,1)) then bi_read(store, asof = today)')
+            break
     # is_bi
     g = ctx.repo.fn('_bitemporal:is_bi')
     ctx.count(1, g.where())
